@@ -1,0 +1,119 @@
+//go:build verif
+
+package app
+
+// Exported wrappers used only by the verification harness (/verif). Add-only, compiled with -tags verif.
+
+import (
+	"sort"
+
+	"github.com/Eyevinn/dash-mpd/mpd"
+)
+
+// VerifRep is the model-relevant part of a loaded representation.
+type VerifRep struct {
+	ID             string
+	ContentType    string
+	Codecs         string
+	MediaTimescale int
+	InitURI        string
+	MediaURI       string
+	TimeURI        bool
+	Segments       []Segment
+	SampleDur      uint32 // sampleDur()
+	ConstSampleDur uint32 // ConstantSampleDuration or 0
+	PreEncrypted   bool
+}
+
+// VerifAsset is the model-relevant part of a loaded asset.
+type VerifAsset struct {
+	AssetPath    string
+	SegmentDurMS int
+	LoopDurMS    int
+	RefRep       string
+	MPDs         []string
+	Reps         []VerifRep
+}
+
+// VerifAssets dumps the loaded asset tables (sorted).
+func (s *Server) VerifAssets() []VerifAsset {
+	var out []VerifAsset
+	for _, a := range s.assetMgr.assets {
+		va := VerifAsset{AssetPath: a.AssetPath, SegmentDurMS: a.SegmentDurMS, LoopDurMS: a.LoopDurMS}
+		if a.refRep != nil {
+			va.RefRep = a.refRep.ID
+		}
+		for name := range a.MPDs {
+			va.MPDs = append(va.MPDs, name)
+		}
+		sort.Strings(va.MPDs)
+		for _, r := range a.Reps {
+			vr := VerifRep{ID: r.ID, ContentType: r.ContentType, Codecs: r.Codecs, MediaTimescale: r.MediaTimescale,
+				InitURI: r.InitURI, MediaURI: r.MediaURI, TimeURI: r.typeURI() == timeURI,
+				Segments: append([]Segment(nil), r.Segments...), SampleDur: r.sampleDur(), PreEncrypted: r.PreEncrypted}
+			if r.ConstantSampleDuration != nil {
+				vr.ConstSampleDur = *r.ConstantSampleDuration
+			}
+			va.Reps = append(va.Reps, vr)
+		}
+		sort.Slice(va.Reps, func(i, j int) bool { return va.Reps[i].ID < va.Reps[j].ID })
+		out = append(out, va)
+	}
+	sort.Slice(out, func(i, j int) bool { return out[i].AssetPath < out[j].AssetPath })
+	return out
+}
+
+// VerifCalcCueItvls wraps calcCueItvls: (startMS, endMS, utcS) per cue.
+func VerifCalcCueItvls(segStart, segDur, utcStart, cueDur int) [][3]int {
+	its := calcCueItvls(segStart, segDur, utcStart, cueDur)
+	out := make([][3]int, len(its))
+	for i, c := range its {
+		out[i] = [3]int{c.startMS, c.endMS, c.utcS}
+	}
+	return out
+}
+
+// VerifMsToTTMLTime wraps msToTTMLTime.
+func VerifMsToTTMLTime(ms int) string { return msToTTMLTime(ms) }
+
+// VerifStateAt parses one traffic pattern and evaluates it at nowS: 0 unknown, 1 up, 2 404, 3 slow, 4 hang.
+func VerifStateAt(pattern string, nowS int) (int, error) {
+	li, err := CreateLossItvls(pattern)
+	if err != nil {
+		return -1, err
+	}
+	return int(li.StateAt(nowS)), nil
+}
+
+// VerifTimeline wraps calcWrapTimes + generateTimelineEntries: startNr, expanded (t,d) entries, last segment info.
+func (s *Server) VerifTimeline(assetPath, repID string, startTimeS, nowMS, tsbdS, atoMS int) (startNr int, tds [][2]uint64, lsiNr int) {
+	a := s.assetMgr.assets[assetPath]
+	cfg := NewResponseConfig()
+	cfg.StartTimeS = startTimeS
+	wt := calcWrapTimes(a, cfg, nowMS, mpd.Duration(tsbdS)*1_000_000_000)
+	se := a.generateTimelineEntries(repID, wt, atoMS)
+	t := uint64(0)
+	for _, e := range se.entries {
+		if e.T != nil {
+			t = *e.T
+		}
+		for k := 0; k <= e.R; k++ {
+			tds = append(tds, [2]uint64{t, e.D})
+			t += e.D
+		}
+	}
+	return se.startNr, tds, se.lsi.nr
+}
+
+// VerifAudioRecipe wraps calcAudioSegRecipe for the audio representation repID of an asset.
+func (s *Server) VerifAudioRecipe(assetPath, repID string, refNr uint32, refStart, refEnd uint64) (segNr uint32, start, end uint64) {
+	a := s.assetMgr.assets[assetPath]
+	rep := a.Reps[repID]
+	rec := calcAudioSegRecipe(refNr, refStart, refEnd, uint64(a.refRep.duration()), uint64(a.refRep.MediaTimescale), rep)
+	return rec.segNr, rec.startTime, rec.endTime
+}
+
+// VerifAudioTimeFromRef wraps calcAudioTimeFromRef.
+func VerifAudioTimeFromRef(refTime, refTimescale, frameDur, audioTimescale uint64) uint64 {
+	return calcAudioTimeFromRef(refTime, refTimescale, frameDur, audioTimescale)
+}
